@@ -1,6 +1,7 @@
 package proxy
 
 import (
+	"context"
 	"errors"
 	"fmt"
 	"log/slog"
@@ -304,7 +305,10 @@ func (f *fetcher) dedupFetch(req *http.Request, key cache.CacheKey, clientHd *he
 	originalClientHd := *clientHd // Copy the original client headers so the shared requests don't get a modified version
 
 	fetchedObj, err, shared := f.group.Do(key.Hex, func() (any, error) {
-		return f.getFromCacheOrFetch(req, key, clientHd)
+		// The result of this fetch is shared with every coalesced request, so it must not be
+		// cancelled when the one client that happens to lead it disconnects.
+		flightReq := req.Clone(context.WithoutCancel(req.Context()))
+		return f.getFromCacheOrFetch(flightReq, key, clientHd)
 	})
 	if err != nil {
 		if errors.Is(err, ErrNotCacheable) {
